@@ -552,8 +552,29 @@ func c19Constructors(env *core.Env, tn, id, ver, base string) {
 		if _, has := u.VersionID(); has || !u.Equal(plain) || wv != "v2" || w.ID() != id || string(w.Type()) != tn || ident.String() != relv || !ident.Equal(ident) || (ver != "" && (ident.Equal(u) || u.Equal(ident))) || ident.Equal(w) {
 			bad("derived", "Unversioned %s, WithNewVersion(v2) %s, original afterwards %s", u, w, ident)
 		}
-		if w2 := w.WithNewVersion(ver); !w2.Equal(ident) {
+		if w2 := w.WithNewVersion(ver); !w2.Equal(ident) || w2.String() != relv {
 			bad("derived", "WithNewVersion(v2).WithNewVersion(%q) = %s", ver, w2)
+		}
+		// derived identities format, parse and build references from their own components (the original has been formatted above)
+		for _, d := range []struct {
+			name string
+			id   *resource.Identity
+			want string
+		}{{"Unversioned", u, rel}, {"WithNewVersion(v2)", w, rel + "/_history/v2"}, {"Unversioned.WithNewVersion(v3)", u.WithNewVersion("v3"), rel + "/_history/v3"}, {"WithNewVersion(v2).Unversioned", w.Unversioned(), rel}} {
+			dv, dok := d.id.RelativeVersionedURIString()
+			if d.id.String() != d.want || d.id.PreferRelativeVersionedURIString() != d.want || d.id.RelativeURIString() != rel || dok != (d.want != rel) || (dok && dv != d.want) {
+				bad("derived-format", "%s of %s formats as %q / %q / %q,%v, expected %q", d.name, relv, d.id.String(), d.id.PreferRelativeVersionedURIString(), dv, dok, d.want)
+			}
+			if back, err := reference.IdentityFromURL(d.id.PreferRelativeVersionedURIString()); err != nil || !back.Equal(d.id) {
+				bad("derived-format", "%s of %s: format then parse gives %s, %v", d.name, relv, back, err)
+			}
+			dref := reference.TypedFromIdentity(d.id)
+			if got, err := reference.IdentityOf(dref); err != nil || !got.Equal(d.id) || !reference.Is(dref, reference.Weak(resource.Type(tn), d.want)) {
+				bad("derived-format", "%s of %s: TypedFromIdentity names %s, %v", d.name, relv, got, err)
+			}
+		}
+		if ident.String() != relv {
+			bad("derived", "the original formats as %q after deriving from it", ident.String())
 		}
 		// parsed back by every parser
 		urls := []string{relv}
